@@ -224,6 +224,24 @@ fn radix_vec_case(r: &mut Rec, label: &str, d: &[u64], radices: &[u32]) {
     }
 }
 
+/// every byte value alone, after a digit, between two digits and after a sign: nothing but the documented digit
+/// characters and '_' may be accepted (case folding or range tricks alias control bytes and punctuation onto digits)
+fn byte_classes(r: &mut Rec) {
+    for radix in [2u32, 10, 16, 36] {
+        if !r.case(&format!("byte classes radix {}", radix)) {
+            continue;
+        }
+        for b in 0..=255u8 {
+            parse_all(r, &[b], radix);
+            parse_all(r, &[b'1', b], radix);
+            if b < 128 {
+                parse_all(r, &[b'1', b, b'0'], radix);
+                parse_all(r, &[b'-', b], radix);
+            }
+        }
+    }
+}
+
 fn parser_language(r: &mut Rec) {
     // every string of <= 4 symbols over a small alphabet, radix 10 and 16; plus hand-written corner cases
     let alpha: [u8; 8] = [b'+', b'-', b'_', b'0', b'7', b'a', b'F', b' '];
@@ -357,6 +375,7 @@ pub fn run(r: &mut Rec) {
         }
     }
     parser_language(r);
+    byte_classes(r);
     // leading zeros filling whole extra native digits, for every kind of radix (exact / inexact bitwise, generic)
     for radix in [2u32, 4, 8, 16, 32, 64, 128, 256, 3, 10, 36, 255] {
         if !r.case(&format!("leading zeros radix {}", radix)) {
